@@ -1,0 +1,90 @@
+//go:build verif
+
+package main
+
+import (
+	"crypto/sha256"
+	"os"
+	"path/filepath"
+	"strings"
+
+	"github.com/rogpeppe/go-internal/cache"
+)
+
+var _ = func() bool {
+	// cachefault <fault> <data hex>: a fresh hashed cache (the library behind GARBLE_CACHE/build), one PutBytes, one fault on
+	// the entry's index (-a) or data (-d) file, then GetFile through a new handle, as loadPkgCache does.
+	// faults: none, delete-a, empty-a, truncate-a, garbage-a, delete-d, empty-d, truncate-d, append-d
+	// Answer: miss | hit <content hex>
+	verifOps["cachefault"] = func(a []string) string {
+		data := verifUnhex(a[1])
+		dir, err := os.MkdirTemp("", "verif-cache")
+		if err != nil {
+			return "err mkdir"
+		}
+		defer os.RemoveAll(dir)
+		c, err := cache.Open(dir)
+		if err != nil {
+			return "err open"
+		}
+		id := sha256.Sum256([]byte("the one key"))
+		if err := c.PutBytes(id, data); err != nil {
+			return "err put"
+		}
+		var afile, dfile string
+		filepath.Walk(dir, func(p string, info os.FileInfo, err error) error {
+			if err == nil && !info.IsDir() {
+				if strings.HasSuffix(p, "-a") {
+					afile = p
+				} else if strings.HasSuffix(p, "-d") {
+					dfile = p
+				}
+			}
+			return nil
+		})
+		kind, which, _ := strings.Cut(a[0], "-")
+		target := afile
+		if which == "d" {
+			target = dfile
+		}
+		if kind != "none" && target == "" {
+			return "err entry-file-not-found"
+		}
+		switch kind {
+		case "none":
+		case "delete":
+			os.Remove(target)
+		case "empty":
+			os.WriteFile(target, nil, 0o666)
+		case "truncate":
+			b, _ := os.ReadFile(target)
+			os.WriteFile(target, b[:len(b)/2], 0o666)
+		case "garbage":
+			b, _ := os.ReadFile(target)
+			for i := range b {
+				b[i] = 'x'
+			}
+			os.WriteFile(target, b, 0o666)
+		case "append":
+			f, _ := os.OpenFile(target, os.O_APPEND|os.O_WRONLY, 0o666)
+			f.Write([]byte("extra"))
+			f.Close()
+		default:
+			return "err unknown-fault"
+		}
+		c2, err := cache.Open(dir)
+		if err != nil {
+			return "err reopen"
+		}
+		name, _, err := c2.GetFile(id)
+		if err != nil {
+			return "miss"
+		}
+		got, err := os.ReadFile(name)
+		if err != nil {
+			return "miss"
+		}
+		return "hit " + verifHex(got)
+	}
+	return true
+}()
